@@ -480,7 +480,26 @@ impl Case {
 
     fn expect_unchanged(&mut self, snap: &Snap, props: &[&'static str], ctx: &str) {
         if !snap.content_eq(&self.prev_snap) {
-            self.v(viol(props, format!("{}:rejected-request-changed-state", props[0]), format!("{ctx}: the request failed but the tower database changed")));
+            // whose business it is depends on what changed as well: balances are C07's, stored appointments C08's,
+            // responses C01's
+            let mut tags: Vec<&'static str> = props.to_vec();
+            let mut what = Vec::new();
+            if snap.users != self.prev_snap.users {
+                tags.push("C07");
+                what.push("users");
+            }
+            if snap.appts != self.prev_snap.appts {
+                tags.push("C08");
+                what.push("appointments");
+            }
+            if snap.trackers != self.prev_snap.trackers {
+                tags.push("C01");
+                what.push("trackers");
+            }
+            tags.dedup();
+            let mut seen = std::collections::BTreeSet::new();
+            tags.retain(|t| seen.insert(*t));
+            self.v(viol(&tags, format!("{}:rejected-request-changed-state", props[0]), format!("{ctx}: the request failed but the tower database changed ({})", what.join(", "))));
         }
     }
 
